@@ -321,3 +321,42 @@ T("C19", "twin-decorator-registers-wrapper", F, "", "",
   edits=[(F, "            self.register_task(-1, func)\n            return func\n",
           "            @functools.wraps(func)\n            def wrapper(task):\n                return func(task)\n\n            self.register_task(-1, wrapper)\n            return wrapper\n"),
          (F, "import hashlib\n", "import functools\nimport hashlib\n")])
+
+# ---------------------------------------------------------------------------------------------- R10 one table per client, one list per key
+INIT = "    def __init__(self):\n        self.task_map = {}\n"
+CLS = "class HttpBeaconClient:\n"
+# the pre-populated table as an optional argument, chosen by None-ness / by `or` / in a guard clause
+T("C19", "twin-init-optional-table-none-default", F, INIT, "    def __init__(self, task_map=None):\n        self.task_map = task_map if task_map is not None else {}\n")
+T("C19", "twin-init-optional-table-guard-clause", F, INIT, "    def __init__(self, task_map=None):\n        if task_map is None:\n            task_map = {}\n        self.task_map = task_map\n")
+# a mutable default that never becomes the table: copied, or empty = falsy and replaced
+T("C19", "twin-init-mutable-default-copied", F, INIT, "    def __init__(self, task_map={}):\n        self.task_map = dict(task_map)\n")
+T("C19", "twin-init-empty-default-replaced", F, INIT, "    def __init__(self, task_map={}):\n        if not task_map:\n            task_map = {}\n        self.task_map = task_map\n")
+T("C19", "twin-init-sentinel-default", F, INIT,
+  "    _UNSET = object()\n\n    def __init__(self, task_map=_UNSET):\n        self.task_map = {} if task_map is HttpBeaconClient._UNSET else task_map\n")
+# other spellings of a fresh table
+T("C19", "twin-init-defaultdict", F, "", "", edits=[(F, INIT, "    def __init__(self):\n        self.task_map = collections.defaultdict(list)\n"), (F, "import hashlib\n", "import collections\nimport hashlib\n")])
+T("C19", "twin-init-annotated-dict-call", F, INIT, "    def __init__(self) -> None:\n        self.task_map: Dict[Union[None, int], List[Callable]] = dict()\n")
+T("C19", "twin-init-reset-method", F, INIT, "    def __init__(self):\n        self.reset_handlers()\n\n    def reset_handlers(self):\n        self.task_map = {}\n")
+# class-level template that is copied (empty: shallow is enough; with lists: deep) / class-level declaration replaced in __init__
+T("C19", "twin-init-class-template-copied", F, INIT, "    DEFAULT_TASK_MAP = {}\n\n    def __init__(self):\n        self.task_map = dict(self.DEFAULT_TASK_MAP)\n")
+T("C19", "twin-init-class-template-deepcopied", F, "", "",
+  edits=[(F, INIT, "    DEFAULT_TASK_MAP = {-1: []}\n\n    def __init__(self):\n        self.task_map = copy.deepcopy(self.DEFAULT_TASK_MAP)\n"), (F, "import hashlib\n", "import copy\nimport hashlib\n")])
+T("C19", "twin-init-class-level-declaration", F, INIT, "    task_map = {}\n\n    def __init__(self):\n        self.task_map = {}\n")
+# the handler list of a key: created in a chained assignment and kept in a local
+T("C19", "twin-register-chained-new-list", F, REG,
+  "        handlers = self.task_map.get(command_id)\n        if handlers is None:\n            handlers = self.task_map[command_id] = []\n        handlers.append(func)\n")
+# one object for all clients (different carriers than the seeded change: class body, module level, shallow copy, callee default)
+M("C19", "table-is-class-attribute-only", F, INIT, "    task_map = {}\n\n    def __init__(self):\n", "C19.R10")
+M("C19", "table-is-class-level-template", F, INIT, "    DEFAULT_TASK_MAP = {}\n\n    def __init__(self):\n        self.task_map = self.DEFAULT_TASK_MAP\n", "C19.R10")
+M("C19", "table-is-module-level-object", F, "", "", "C19.R10",
+  edits=[(F, CLS, "_REGISTERED_TASKS = {}\n\n\n" + CLS), (F, INIT, "    def __init__(self):\n        self.task_map = _REGISTERED_TASKS\n")])
+M("C19", "table-mutable-default-via-or", F, INIT, "    def __init__(self, task_map={-1: []}):\n        self.task_map = task_map or {}\n", "C19.R10")
+M("C19", "table-shallow-copy-of-class-template", F, INIT, "    DEFAULT_TASK_MAP = {-1: [], None: []}\n\n    def __init__(self):\n        self.task_map = dict(self.DEFAULT_TASK_MAP)\n", "C19.R10")
+M("C19", "table-fromkeys-one-list", F, INIT, "    def __init__(self):\n        self.task_map = dict.fromkeys([command.value for command in BeaconCommand], [])\n", "C19.R10")
+M("C19", "table-conditionally-class-level", F, INIT, "    task_map = {}\n\n    def __init__(self, isolated=False):\n        if isolated:\n            self.task_map = {}\n", "C19.R10")
+# one list for all keys / all clients
+M("C19", "handler-list-mutable-default", F, "", "", "C19.R10",
+  edits=[(F, "    def register_task(self, command_id: Union[None, int], func):\n", "    def register_task(self, command_id: Union[None, int], func, handlers=[]):\n"),
+         (F, REG, "        self.task_map.setdefault(command_id, handlers).append(func)\n")])
+M("C19", "handler-list-module-level-empty", F, "", "", "C19.R10",
+  edits=[(F, CLS, "_NO_HANDLERS = []\n\n\n" + CLS), (F, REG, "        if command_id not in self.task_map:\n            self.task_map[command_id] = _NO_HANDLERS\n        self.task_map[command_id].append(func)\n")])
